@@ -114,7 +114,7 @@ impl<M: Math, A: MassMatrixAdaptStrategy<M>> AdaptStrategy<M> for GlobalStrategy
             rng,
         )?;
         self.step_size
-            .init(math, options, hamiltonian, position, rng)?;
+            .init(math, options, hamiltonian, position, None, rng)?;
         Ok(())
     }
 
@@ -208,7 +208,7 @@ impl<M: Math, A: MassMatrixAdaptStrategy<M>> AdaptStrategy<M> for GlobalStrategy
                 self.has_initial_mass_matrix = false;
                 let position = math.box_array(state.point().position());
                 self.step_size
-                    .init(math, options, hamiltonian, &position, rng)?;
+                    .init(math, options, hamiltonian, &position, Some(state), rng)?;
             } else {
                 self.step_size.update_stepsize(rng, hamiltonian, false)
             }
